@@ -669,6 +669,16 @@ class Foreign(EngineBase):
                         not probe_faulted:
                     V("C20.cause", ftags + [cls, state_end], "%s raised %r "
                       "but the pid is %s" % (method, e, state_end))
+                if cls == "AD" and len(fired) == 1 and \
+                        fired[0]["k"] == 0 and "perm" in classes and \
+                        state_end == "live" and not fired[0].get("os") and \
+                        expected_fallback(stub, k, platform, method) \
+                        is not None:
+                    V("C20.layout", ftags + ["fallback", "AD"],
+                      "%s raised %r although the layer documents a fallback "
+                      "for a refused first native call (expected %r)" % (
+                          method, e, expected_fallback(stub, k, platform,
+                                                       method)))
                 if cls == "AD" and "perm" not in classes and \
                         not self.special_ok(platform, method, pid, cls,
                                             classes):
